@@ -899,21 +899,32 @@ def run_ult(chunk, ctx):
                 hmaps = sorted(HMAPS) if tag != "unif" else ["lin", "dec"]
                 for hm in hmaps:
                     exact = HMAPS[hm][1]
+                    if n >= 5 and tag != "base" and hm in ("geo", "mix"):
+                        continue
                     root_lens = (None, 0.5) if tag == "base" and hm in ("lin", "dec") else (None,)
                     for rl in root_lens:
                         sn = ultra_snap(d, ranks, hm, rl)
-                        ult_cases(sn, n, tag, hm, exact, ctx, full=(rl is None))
+                        ult_cases(sn, n, tag, hm, exact, ctx, full=(rl is None and (tag == "base" or n <= 4)))
         ctx.sample({"layer": "ult", "shape": ref.to_newick(ref.mk(shape), False), "drawings": len(drawings),
                     "weak_rankings": nranked, "example": nwk(ultra_snap(shape, next(rankings(shape)), "mix"))}, 2)
 
 
+PREC_LITE = [DEFAULT, P10, 0, None]
+
+
 def ult_cases(sn, n, tag, hm, exact, ctx, full=True):
+    """full: every precision x forcing option x entry point, every restore variant, gamma by both
+    routes; lite (re-ordered / unifurcated / root-edge drawings of n >= 5): a reduced argument set"""
     nt = _nontriv(n)
     base = {"tree": sn, "exact": exact, "tag": tag, "hmap": hm}
     # ages under every precision and forcing option
     for force in (None, "max", "min"):
-        for p in (PREC_ALL if full else PREC_WRAP):
-            for fn in (AGE_FNS if (full and (isinstance(p, str) or p in PREC_WRAP)) else AGE_FNS[:1]):
+        for p in (PREC_ALL if full else PREC_LITE):
+            if full:
+                fns = AGE_FNS if (isinstance(p, str) or p in PREC_WRAP) else AGE_FNS[:1]
+            else:
+                fns = AGE_FNS if isinstance(p, str) else AGE_FNS[:1]
+            for fn in fns:
                 case = dict(base, kind="ages", p=p, force=force, fn=fn)
                 ctx.case(("ages", sn, repr(p), force, fn), nt)
                 ctx.count("age_calls")
@@ -924,21 +935,20 @@ def ult_cases(sn, n, tag, hm, exact, ctx, full=True):
         ctx.case(("res", sn, op), nt)
         ctx.count("depth_and_vector_calls")
         check_resolve(dict(base, kind="resolve", op=op), ctx)
-    if full:
-        for src in ("calc", "resolve"):
-            for wipe in ("keep", "none", "junk"):
-                for kwname in sorted(SETLEN_KW):
-                    ctx.case(("setlen", sn, src, wipe, kwname), nt)
-                    ctx.count("restore_calls")
-                    check_setlen(dict(base, kind="setlen", src=src, wipe=wipe, kw=kwname), ctx)
+    for src in ("calc", "resolve"):
+        for wipe in (("keep", "none", "junk") if full else ("none",)):
+            for kwname in (sorted(SETLEN_KW) if full else ("default",)):
+                ctx.case(("setlen", sn, src, wipe, kwname), nt)
+                ctx.count("restore_calls")
+                check_setlen(dict(base, kind="setlen", src=src, wipe=wipe, kw=kwname), ctx)
     check_lineages(dict(base, kind="lineages"), ctx)
     if n >= 2 and not has_unif(sn):
         ctx.case(("treeness", sn), nt)
         ctx.count("treeness_trees")
         check_treeness(dict(base, kind="treeness"), ctx)
-        if n >= 3 and is_binary_sn(sn) and full:
-            for prec in (DEFAULT, P10, 0, None):
-                for via in ("module", "method"):
+        if n >= 3 and is_binary_sn(sn):
+            for prec in ((DEFAULT, P10, 0, None) if full else (DEFAULT,)):
+                for via in (("module", "method") if full else ("module",)):
                     ctx.case(("gamma", sn, repr(prec), via), nt)
                     ctx.count("gamma_calls")
                     check_gamma(dict(base, kind="gamma", prec=prec, via=via), ctx)
@@ -979,12 +989,12 @@ def run_pert(chunk, ctx):
                                     ctx.case(("ages", sn, DEFAULT, force, "calc_node_ages"), nt)
                                     ctx.count("forced_age_calls")
                                     check_ages(dict(base, kind="ages", p=DEFAULT, force=force, fn="calc_node_ages"), ctx)
-                                for p in (DEFAULT, P10, 1):
+                                for p in ((DEFAULT, P10, 1) if n <= 4 else (P10, 1)):
                                     ctx.case(("setlen", sn, repr(p)), nt)
                                     ctx.count("restore_calls")
                                     check_setlen(dict(base, kind="setlen", src="calc", wipe="none", kw="default", p=p), ctx)
                                 if n >= 3 and is_binary_sn(sn):
-                                    for prec in (DEFAULT, P10, 0, None):
+                                    for prec in ((DEFAULT, P10, 0, None) if n <= 4 else (DEFAULT, P10)):
                                         ctx.case(("gamma", sn, repr(prec), "module"), nt)
                                         ctx.count("gamma_calls")
                                         check_gamma(dict(base, kind="gamma", prec=prec, via="module"), ctx)
